@@ -98,3 +98,68 @@ def evalx(fn, nid, env, depth=0):
     if k == "construct" and len(c) == 1:
         return evalx(fn, c[0], env, depth + 1)
     raise Unknown("node kind " + k)
+
+
+def eval_prefix(fn, env, max_blocks=64):
+    """Constant propagation over the loop-free prefix of a function for ONE point of a finite input grid: starting at the entry block,
+    declarations / assignments of integer locals whose right-hand side is evaluable are recorded, evaluable branch conditions are
+    followed, and the walk stops at the first loop header (or when a condition is not evaluable).  Returns (env, stop_block).
+    No memory, no calls (other than the pure helpers given in env), no loops: this is not an execution of the function."""
+    env = dict(env)
+    b = fn.entry
+    seen = set()
+    loop_terms = ("ForStmt", "WhileStmt", "DoStmt", "CXXForRangeStmt")
+    for _ in range(max_blocks):
+        if b is None or b in seen:
+            return env, b
+        seen.add(b)
+        blk = fn.blocks[b]
+        if blk.get("term") in loop_terms and blk["elems"] == [] or (blk.get("term") in loop_terms):
+            # evaluate the header's own events (loop condition operands) but do not enter the loop
+            return env, b
+        for e in blk["elems"]:
+            n = fn.nodes[e]
+            try:
+                if n["k"] == "decl":
+                    for v in n["vars"]:
+                        if "init" in v:
+                            try:
+                                env[v["name"]] = evalx(fn, v["init"], env)
+                            except Unknown:
+                                env.pop(v["name"], None)
+                elif n["k"] == "bin" and n["op"] in ("=", "+=", "-=", "*=", "&=", "|=", "^=", "<<=", ">>=", "%=", "/="):
+                    c = fn.kids(e)
+                    lhs = fn.nodes[c[0]]
+                    if lhs["k"] == "ref" and lhs.get("dk") in ("local", "param"):
+                        nm = lhs["name"]
+                        try:
+                            r = evalx(fn, c[1], env)
+                            if n["op"] == "=":
+                                env[nm] = wrap(r, lhs.get("t"))
+                            elif nm in env:
+                                a = env[nm]
+                                op = n["op"][:-1]
+                                val = {"+": a + r, "-": a - r, "*": a * r, "&": a & r, "|": a | r, "^": a ^ r, "<<": a << r, ">>": a >> r,
+                                       "%": (a % r if r else 0), "/": (a // r if r else 0)}[op]
+                                env[nm] = wrap(val, lhs.get("t"))
+                        except Unknown:
+                            env.pop(nm, None)
+                elif n["k"] == "un" and n["op"] in ("++", "--"):
+                    c = fn.kids(e)
+                    lhs = fn.nodes[c[0]]
+                    if lhs["k"] == "ref" and lhs.get("name") in env:
+                        env[lhs["name"]] = wrap(env[lhs["name"]] + (1 if n["op"] == "++" else -1), lhs.get("t"))
+            except Unknown:
+                pass
+        succ = blk["succ"]
+        if "cond" in blk and len(succ) == 2:
+            try:
+                v = evalx(fn, blk["cond"], env)
+            except Unknown:
+                return env, b
+            b = succ[0] if v else succ[1]
+        elif len(succ) >= 1:
+            b = succ[0]
+        else:
+            return env, b
+    return env, b
